@@ -720,7 +720,10 @@ def x_sysexit(c):
 @ext("logging.*", "warnings.warn")
 def x_logging(c):
     # handlers swallow emit errors (logging.raiseExceptions only prints); not a stdout sink
-    c.ret(None, pure=False)
+    if c.callee.endswith(("getLogger", "Logger")):
+        c.ret(None, ("type", c.term, frozenset(["obj:logger"])), pure=False)
+    else:
+        c.ret(None, pure=False)
 
 
 @ext("os.getenv", "os.environ.get", "os.getcwd", "os.urandom", "locale.*", "random.*", "secrets.*", "os.path.*", "os.listdir", "os.stat", "platform.*", "socket.*", "getpass.*", "uuid.*", "tempfile.*", "time.strftime", "time.sleep")
